@@ -57,6 +57,18 @@ type mstate struct {
 	boundary bool // observed in the flush that removed it after >= 3 reports
 }
 
+// brief renders sorted timer values: all of them when few, otherwise count, sum and range.
+func brief(vs []float64) string {
+	if len(vs) <= 32 {
+		return fmt.Sprint(vs)
+	}
+	sum := 0.0
+	for _, v := range vs {
+		sum += v
+	}
+	return fmt.Sprintf("[%d values, sum %v, %v..%v]", len(vs), sum, vs[0], vs[len(vs)-1])
+}
+
 func TestExpiryHistories(t *testing.T) {
 	rapid.Check(t, func(t *rapid.T) {
 		exp := map[gostatsd.MetricType]time.Duration{
@@ -122,6 +134,37 @@ func TestExpiryHistories(t *testing.T) {
 					deliver()
 				}
 			},
+			"burst": func(t *rapid.T) {
+				// rarely: one timer series receives thousands of values within the interval (one consolidated map from a
+				// forwarder); the intervals after it, without data, must look like any other idle interval
+				if rapid.IntRange(0, 5).Draw(t, "burst-now") != 0 {
+					t.Skip("no burst now")
+				}
+				var ts []sid
+				for _, s := range series {
+					if s.typ == gostatsd.TIMER {
+						ts = append(ts, s)
+					}
+				}
+				s := rapid.SampledFrom(ts).Draw(t, "series")
+				n := rapid.SampledFrom([]int{3000, 4097, 6000}).Draw(t, "burst-values")
+				st := model[s]
+				if !st.live {
+					*st = mstate{live: true, wasGone: st.wasGone, reborn: st.wasGone}
+				}
+				st.lastData = now.UnixNano()
+				vals := make([]float64, n)
+				for i := range vals {
+					vals[i] = float64(1 + i%9)
+				}
+				st.values = append(st.values, vals...)
+				st.sampled += float64(n)
+				deliver()
+				mm := gostatsd.NewMetricMap(false)
+				mm.Timers[s.name] = map[string]gostatsd.Timer{s.tag: {Values: vals, SampledCount: float64(n), Timestamp: gostatsd.Nanotime(now.UnixNano()), Tags: gostatsd.Tags{s.tag}}}
+				agg.ReceiveMap(mm)
+				history = append(history, fmt.Sprintf("@%v burst of %d values on %s", now.Sub(time.Unix(1_700_000_000, 0)), n, s))
+			},
 			"advance": func(t *rapid.T) {
 				deliver() // datapoints carry their receive time; deliver before time moves on
 				d := rapid.SampledFrom(steps).Draw(t, "dt")
@@ -162,10 +205,10 @@ func TestExpiryHistories(t *testing.T) {
 								bs = append(bs, fmt.Sprintf("%v:%d", float64(th), c))
 							}
 							sort.Strings(bs)
-							note(sid{gostatsd.TIMER, n, tk}, fmt.Sprintf("hist/%v/%v", vs, bs))
+							note(sid{gostatsd.TIMER, n, tk}, fmt.Sprintf("hist/%v/%v", brief(vs), bs))
 							return
 						}
-						note(sid{gostatsd.TIMER, n, tk}, fmt.Sprintf("%d/%v/%v/p%d", tm.Count, tm.PerSecond, vs, len(tm.Percentiles)))
+						note(sid{gostatsd.TIMER, n, tk}, fmt.Sprintf("%d/%v/%v/p%d", tm.Count, tm.PerSecond, brief(vs), len(tm.Percentiles)))
 					})
 				})
 				agg.Reset()
@@ -219,7 +262,7 @@ func TestExpiryHistories(t *testing.T) {
 						if len(vs) > 0 {
 							np = 5
 						}
-						want = fmt.Sprintf("%d/%v/%v/p%d", len(vs), float64(len(vs))/10, vs, np)
+						want = fmt.Sprintf("%d/%v/%v/p%d", len(vs), float64(len(vs))/10, brief(vs), np)
 						if strings.HasPrefix(s.tag, "gsd_histogram:") {
 							le2, le5 := 0, 0
 							for _, v := range vs {
@@ -232,7 +275,7 @@ func TestExpiryHistories(t *testing.T) {
 							}
 							bs := []string{fmt.Sprintf("%v:%d", 2.0, le2), fmt.Sprintf("%v:%d", 5.0, le5), fmt.Sprintf("%v:%d", math.Inf(1), len(vs))}
 							sort.Strings(bs)
-							want = fmt.Sprintf("hist/%v/%v", vs, bs)
+							want = fmt.Sprintf("hist/%v/%v", brief(vs), bs)
 						}
 					}
 					if desc != want {
